@@ -99,6 +99,43 @@ func runC08(res *Result, tier string, rnd *Rand, replay string) {
 		for ai := range d.Apps {
 			d.Apps[ai].Collector = []dTemplate{}
 		}
+		// values that run over several lines (a quoted string may contain line breaks), with a short last line,
+		// and placeholder declarations (`!type T: ...`) of types declared in full in the same application
+		for ai := range d.Apps {
+			a := &d.Apps[ai]
+			ml := func() dKV {
+				return dKV{K: "ml", V: dAttrVal{S: Pick(r, []string{"first line\nx", "a\n", "two\n  lines\nab", "long first line of a text that goes on\nz"})}}
+			}
+			if r.Chance(1, 3) {
+				a.Attrs.KV = append(a.Attrs.KV, ml())
+			}
+			var extra []dTypeDecl
+			for ti := range a.Types {
+				t := &a.Types[ti]
+				if (t.Kind == "type" || t.Kind == "table") && r.Chance(1, 5) {
+					t.Attrs.KV = append(t.Attrs.KV, ml())
+				}
+				for fi := range t.Fields {
+					if r.Chance(1, 10) {
+						t.Fields[fi].Attrs.KV = append(t.Fields[fi].Attrs.KV, ml())
+					}
+				}
+				if (t.Kind == "type" || t.Kind == "table") && len(t.Fields) > 0 && r.Chance(1, 5) {
+					extra = append(extra, dTypeDecl{Name: t.Name, Kind: t.Kind, Attrs: emptyAttrs(), Fields: []dField{}, Items: []dEnumItem{}, Members: []dType{}, Placeholder: true})
+				}
+			}
+			// before the full declarations half of the time (the renderer may still reorder members)
+			if r.Bool() {
+				a.Types = append(extra, a.Types...)
+			} else {
+				a.Types = append(a.Types, extra...)
+			}
+			for ei := range a.Eps {
+				if r.Chance(1, 6) {
+					a.Eps[ei].Attrs.KV = append(a.Eps[ei].Attrs.KV, ml())
+				}
+			}
+		}
 		var marks []c08Mark
 		base := map[string]int{}
 		two := r.Chance(1, 2)
@@ -162,7 +199,18 @@ func runC08(res *Result, tier string, rnd *Rand, replay string) {
 		// expected declarations per path, in declaration order (main.sysl first, then the import)
 		exp := map[string][]c08Mark{}
 		var order []string
+		// the statements of an event are its own and the calls its subscribers add, in the order the files and
+		// applications are walked: their indices are not the renderer's to know (C02 models that order)
+		eventEp := map[string]bool{}
 		for _, mk := range marks {
+			if mk.Tok == "<->" {
+				eventEp[mk.Path] = true
+			}
+		}
+		for _, mk := range marks {
+			if i := strings.Index(mk.Path, ".stmt["); i >= 0 && eventEp[mk.Path[:i]] {
+				continue
+			}
 			if _, ok := exp[mk.Path]; !ok {
 				order = append(order, mk.Path)
 			}
@@ -180,6 +228,13 @@ func runC08(res *Result, tier string, rnd *Rand, replay string) {
 			kinds[kind]++
 			viol := func(sig, what string, extra any) {
 				res.Violate(Violation{Sig: sig + ":" + kind, What: what, Input: in, Want: want, Got: map[string]any{"path": p, "locations": got, "detail": extra}})
+			}
+			if isEvent := len(want) > 0 && want[0].Tok == "<->"; isEvent && len(got) < len(want) && len(got) <= 1 {
+				// known finding: EnterEvent records a location only when it creates the endpoint; an event that a
+				// subscriber written earlier has already brought into being, or a second block declaring the event,
+				// finds it existing and records nothing
+				res.Violate(Violation{Sig: "location-count:event-declaration-that-finds-the-event-existing", What: fmt.Sprintf("%s is declared %d time(s) but carries %d location(s)", p, len(want), len(got)), Input: in, Want: want, Got: map[string]any{"path": p, "locations": got}})
+				continue
 			}
 			if len(got) != len(want) {
 				viol("location-count", fmt.Sprintf("%s is declared %d time(s) but carries %d location(s)", p, len(want), len(got)), nil)
